@@ -1,4 +1,167 @@
-import DSModel.Ebpps.Sketch
+/-
+C18 — EBPPS sampling sketch: bookkeeping exact, c = rho·cumWt = min(k, cumWt/wtMax), sample size ⌊c⌋ / ⌈c⌉.
+
+ONLY property theorems and their non-vacuity examples live here (helper lemmas: Lemmas/Ebpps*.lean).
+Model: DSModel/Ebpps/{Num,Sample,Sketch,Run}.lean — ONE generic definition over an ops-only numeric class; the `Float`
+instance is what `dsmodel_ebpps` executes and what the correspondence check `./check C18` compares bit for bit with
+ebpps_sketch_impl.hpp / ebpps_sample_impl.hpp (all random draws supplied through the DATASKETCHES_VERIF hook);
+the theorems below are about the `Rat` instance of the SAME definitions (exact arithmetic; binary64 rounding is not
+modelled).  Every statement is for every `k ≥ 1`, every finite stream of positive rational weights, every sequence of
+draws (`Draws`: the values returned by `next_double()` and by `random_idx`), and every model variant `v`
+(`Variant`: which of the three proposed repairs the current source contains; the pinned tree is `{}`).
+
+Admissible unit draws (`UnitOK`): values of `next_double()` lie in `[0,1)`; for the PINNED code the theorems need the
+draw to be nonzero, `(0,1)`: a draw of exactly `0.0` loses the partial item (`eb_structure_full_false`).
+
+NOT formalised (DESIGN.md §5): "over the sampling randomness each item's inclusion probability is proportional to its
+weight" as a statement about the joint distribution of all draws.  Only the one-step identities are proved (`eb_one_step_pps_*`).
+-/
+import DSProofs.Lemmas.EbppsMerge
 namespace DS.Ebpps
-theorem placeholder : True := trivial
+
+/-- the items offered by a stream -/
+def itemsOf (ops : List (Upd Rat)) : List Nat := ops.map (·.item)
+
+/-- a valid update stream: positive weights and admissible draws -/
+def ValidStream (v : Variant) (ops : List (Upd Rat)) : Prop := ∀ u ∈ ops, 0 < u.w ∧ UnitOK v.geDraw u.d
+
+theorem streamOK_of_valid {v : Variant} {ops : List (Upd Rat)} (h : ValidStream v ops) :
+    StreamOK v (· ∈ itemsOf ops) ops := fun u hu =>
+  ⟨(h u hu).1, List.mem_map.2 ⟨u, hu, rfl⟩, (h u hu).2⟩
+
+/-- n and the cumulative weight are exact (and `k`, the maximum weight are what they should be). -/
+theorem eb_counts (v : Variant) (k : Nat) (hk : 1 ≤ k) (ops : List (Upd Rat)) (h : ValidStream v ops) :
+    (runUpdates v (Sketch.fresh k) ops).n = ops.length ∧
+    (runUpdates v (Sketch.fresh k) ops).cumWt = wsum ops ∧
+    (runUpdates v (Sketch.fresh k) ops).k = k ∧
+    (runUpdates v (Sketch.fresh k) ops).wtMax = wmaxFrom 0 ops := by
+  obtain ⟨-, h2, h3, h4, h5⟩ := runUpdates_wf v ops _ (wf_fresh hk) (streamOK_of_valid h)
+  refine ⟨by simpa [Sketch.fresh] using h2, by simpa [Sketch.fresh] using h3, by simpa [Sketch.fresh] using h5, ?_⟩
+  simpa [Sketch.fresh] using h4
+
+example : ValidStream {} [⟨1, 3, ⟨[1/2], [7]⟩⟩, ⟨2, 1/4, ⟨[1/3, 2/3], []⟩⟩] := by
+  intro u hu; simp at hu; rcases hu with rfl | rfl <;> simp [UnitOK] <;> norm_num
+
+/-- after every update `c = rho·cumWt = min(k, cumWt / wtMax)` with `rho = min(1/wtMax, k/cumWt)`. -/
+theorem eb_c_closed_form (v : Variant) (k : Nat) (hk : 1 ≤ k) (ops : List (Upd Rat)) (hne : ops ≠ [])
+    (h : ValidStream v ops) :
+    (runUpdates v (Sketch.fresh k) ops).sample.c =
+        (runUpdates v (Sketch.fresh k) ops).rho * (runUpdates v (Sketch.fresh k) ops).cumWt ∧
+    (runUpdates v (Sketch.fresh k) ops).rho = min (1 / wmaxFrom 0 ops) ((k : Rat) / wsum ops) ∧
+    (runUpdates v (Sketch.fresh k) ops).sample.c = min (k : Rat) (wsum ops / wmaxFrom 0 ops) := by
+  have hc := runUpdates_core v ops hne _ (wf_fresh hk) (streamOK_of_valid h)
+  obtain ⟨_, e2, e3, e4⟩ := eb_counts v k hk ops h
+  have h1 := hc.c
+  have h2 := hc.rho
+  have h3 := hc.closed
+  rw [e3, e4, e2] at h2 h3
+  exact ⟨h1, h2, h3⟩
+
+example : wsum [⟨1, 3, ⟨[], []⟩⟩, ⟨2, 1/4, ⟨[], []⟩⟩] = 13/4 ∧ wmaxFrom 0 [⟨1, 3, ⟨[], []⟩⟩, ⟨2, 1/4, ⟨[], []⟩⟩] = 3 := by
+  constructor <;> simp [wsum, wmaxFrom] <;> norm_num
+
+/-- `|data| = ⌊c⌋`, the partial item is present iff `frac c > 0`, every stored item is an input item; hence every
+`get_result()` (whatever the draw) has `⌊c⌋` items, or `⌊c⌋ + 1 = ⌈c⌉` items when `c` is not integral, all of them
+input items. -/
+theorem eb_structure (v : Variant) (k : Nat) (hk : 1 ≤ k) (ops : List (Upd Rat)) (h : ValidStream v ops) :
+    ((runUpdates v (Sketch.fresh k) ops).sample.data.length : Int) = (runUpdates v (Sketch.fresh k) ops).sample.c.floor ∧
+    ((runUpdates v (Sketch.fresh k) ops).sample.part.isSome ↔
+      (((runUpdates v (Sketch.fresh k) ops).sample.c.floor : Int) : Rat) < (runUpdates v (Sketch.fresh k) ops).sample.c) ∧
+    (∀ x ∈ (runUpdates v (Sketch.fresh k) ops).sample.items, x ∈ itemsOf ops) ∧
+    ∀ d : Draws Rat,
+      (((getSample (runUpdates v (Sketch.fresh k) ops).sample d).1.length : Int)
+          = (runUpdates v (Sketch.fresh k) ops).sample.c.floor ∨
+        ((((runUpdates v (Sketch.fresh k) ops).sample.c.floor : Int) : Rat) < (runUpdates v (Sketch.fresh k) ops).sample.c ∧
+         ((getSample (runUpdates v (Sketch.fresh k) ops).sample d).1.length : Int)
+          = (runUpdates v (Sketch.fresh k) ops).sample.c.floor + 1)) ∧
+      ∀ x ∈ (getSample (runUpdates v (Sketch.fresh k) ops).sample d).1, x ∈ itemsOf ops := by
+  have hs := (runUpdates_wf v ops _ (wf_fresh hk) (streamOK_of_valid h)).1.sinv
+  refine ⟨hs.len, hs.part, ?_, fun d => getSample_spec hs d⟩
+  intro x hx
+  unfold Sample.items at hx
+  rcases List.mem_append.1 hx with hx | hx
+  · exact hs.dataP x hx
+  · exact hs.partP x (by simpa using hx)
+
+/-- equal weights and `n ≤ k`: `c = n`, nothing is ever dropped, every `get_result()` returns every item (for ANY draws). -/
+theorem eb_equal_weights_keep_all (v : Variant) (k : Nat) (w : Rat) (hw : 0 < w) (ops : List (Upd Rat))
+    (hall : ∀ u ∈ ops, u.w = w) (hnk : ops.length ≤ k) :
+    (runUpdates v (Sketch.fresh k) ops).sample.c = (ops.length : Rat) ∧
+    (runUpdates v (Sketch.fresh k) ops).sample.data = itemsOf ops ∧
+    (runUpdates v (Sketch.fresh k) ops).sample.part = none ∧
+    ∀ d : Draws Rat, (getSample (runUpdates v (Sketch.fresh k) ops).sample d).1 = itemsOf ops := by
+  have h0 : EqState (Sketch.fresh k : Sketch Rat) 0 [] w :=
+    ⟨by simp [Sketch.fresh, Sample.empty], by simp [Sketch.fresh], by simp [Sketch.fresh], fun h => absurd h (lt_irrefl 0)⟩
+  obtain ⟨hst, -⟩ := runUpdates_equal v w hw ops (Sketch.fresh k) 0 [] h0 hall (by simpa [Sketch.fresh] using hnk)
+  have hsm := hst.sample
+  simp only [Nat.zero_add, List.nil_append] at hsm
+  refine ⟨by rw [hsm], by rw [hsm]; rfl, by rw [hsm], fun d => ?_⟩
+  rw [hsm]
+  unfold getSample
+  simp only [Option.toList_none, List.append_nil, ite_self]
+  rfl
+
+example : (∀ u ∈ [(⟨1, 5, ⟨[], []⟩⟩ : Upd Rat), ⟨2, 5, ⟨[], []⟩⟩], u.w = 5) ∧ [(⟨1, 5, ⟨[], []⟩⟩ : Upd Rat), ⟨2, 5, ⟨[], []⟩⟩].length ≤ 2 := by
+  simp
+
+/-- merging two non-empty sketches, in BOTH directions (`a.merge(b)` and `b.merge(a)`; the lvalue and the rvalue overload
+compute the same `*this`): n and the cumulative weight add, `k := min`, the sample keeps its structure with every stored
+item an input item of one of the two streams, and `c = min(k, cumWt / wtMax)` for the merged totals. -/
+theorem eb_merge (v : Variant) (ka kb : Nat) (hka : 1 ≤ ka) (hkb : 1 ≤ kb) (A B : List (Upd Rat))
+    (hA : A ≠ []) (hB : B ≠ []) (hvA : ValidStream v A) (hvB : ValidStream v B)
+    (d : Draws Rat) (hd : UnitOK v.geDraw d) :
+    let a := runUpdates v (Sketch.fresh ka) A
+    let b := runUpdates v (Sketch.fresh kb) B
+    ∀ m, (m = (mergeSk v a b d).1 ∨ m = (mergeSk v b a d).1) →
+      m.n = A.length + B.length ∧ m.cumWt = wsum A + wsum B ∧ m.k = min ka kb ∧
+      m.sample.c = min ((min ka kb : Nat) : Rat) ((wsum A + wsum B) / max (wmaxFrom 0 A) (wmaxFrom 0 B)) ∧
+      (m.sample.data.length : Int) = m.sample.c.floor ∧
+      (m.sample.part.isSome ↔ ((m.sample.c.floor : Int) : Rat) < m.sample.c) ∧
+      ∀ x ∈ m.sample.items, x ∈ itemsOf A ∨ x ∈ itemsOf B := by
+  intro a b m hm
+  obtain ⟨an, aw, ak, am⟩ := eb_counts v ka hka A hvA
+  obtain ⟨bn, bw, bk, bm⟩ := eb_counts v kb hkb B hvB
+  have ca := (runUpdates_core v A hA _ (wf_fresh hka) (streamOK_of_valid hvA)).mono
+    (Q := fun x => x ∈ itemsOf A ∨ x ∈ itemsOf B) (fun x hx => Or.inl hx)
+  have cb := (runUpdates_core v B hB _ (wf_fresh hkb) (streamOK_of_valid hvB)).mono
+    (Q := fun x => x ∈ itemsOf A ∨ x ∈ itemsOf B) (fun x hx => Or.inr hx)
+  have ka1 : 1 ≤ a.k := by show 1 ≤ (runUpdates v (Sketch.fresh ka) A).k; rw [ak]; exact hka
+  have kb1 : 1 ≤ b.k := by show 1 ≤ (runUpdates v (Sketch.fresh kb) B).k; rw [bk]; exact hkb
+  have fin : ∀ (m : Sketch Rat) (K : Nat) (M W : Rat),
+      Core (fun x => x ∈ itemsOf A ∨ x ∈ itemsOf B) m M K → m.cumWt = W →
+      m.sample.c = min (K : Rat) (W / M) ∧ (m.sample.data.length : Int) = m.sample.c.floor ∧
+      (m.sample.part.isSome ↔ ((m.sample.c.floor : Int) : Rat) < m.sample.c) ∧
+      ∀ x ∈ m.sample.items, x ∈ itemsOf A ∨ x ∈ itemsOf B := by
+    intro m K M W hc hW
+    refine ⟨by rw [← hW]; exact hc.closed, hc.sinv.len, hc.sinv.part, ?_⟩
+    intro x hx
+    unfold Sample.items at hx
+    rcases List.mem_append.1 hx with hx | hx
+    · exact hc.sinv.dataP x hx
+    · exact hc.sinv.partP x (by simpa using hx)
+  rcases hm with rfl | rfl
+  · obtain ⟨m1, m2, m3, m4, -, -⟩ := mergeSk_live (v := v) (d := d) ca ka1 cb kb1 hd
+    have e2 : (mergeSk v a b d).1.cumWt = wsum A + wsum B := by rw [m2]; show (runUpdates v _ A).cumWt + (runUpdates v _ B).cumWt = _; rw [aw, bw]
+    have e4 : (mergeSk v a b d).1.k = min ka kb := by rw [m4]; show min (runUpdates v _ A).k (runUpdates v _ B).k = _; rw [ak, bk]
+    have e3 : (mergeSk v a b d).1.n = A.length + B.length := by rw [m3]; show (runUpdates v _ A).n + (runUpdates v _ B).n = _; rw [an, bn]
+    have hcore : Core (fun x => x ∈ itemsOf A ∨ x ∈ itemsOf B) (mergeSk v a b d).1 (max (wmaxFrom 0 A) (wmaxFrom 0 B)) (min ka kb) := by
+      have := m1
+      show Core _ _ _ _
+      rw [show a.wtMax = wmaxFrom 0 A from am, show b.wtMax = wmaxFrom 0 B from bm, show a.k = ka from ak, show b.k = kb from bk] at this
+      exact this
+    exact ⟨e3, e2, e4, fin _ _ _ _ hcore e2⟩
+  · obtain ⟨m1, m2, m3, m4, -, -⟩ := mergeSk_live (v := v) (d := d) cb kb1 ca ka1 hd
+    have e2 : (mergeSk v b a d).1.cumWt = wsum A + wsum B := by
+      rw [m2]; show (runUpdates v _ B).cumWt + (runUpdates v _ A).cumWt = _; rw [aw, bw]; ring
+    have e4 : (mergeSk v b a d).1.k = min ka kb := by
+      rw [m4]; show min (runUpdates v _ B).k (runUpdates v _ A).k = _; rw [ak, bk]; exact min_comm _ _
+    have e3 : (mergeSk v b a d).1.n = A.length + B.length := by
+      rw [m3]; show (runUpdates v _ B).n + (runUpdates v _ A).n = _; rw [an, bn]; omega
+    have hcore : Core (fun x => x ∈ itemsOf A ∨ x ∈ itemsOf B) (mergeSk v b a d).1 (max (wmaxFrom 0 A) (wmaxFrom 0 B)) (min ka kb) := by
+      have := m1
+      rw [show b.wtMax = wmaxFrom 0 B from bm, show a.wtMax = wmaxFrom 0 A from am, show b.k = kb from bk, show a.k = ka from ak,
+        max_comm, min_comm] at this
+      exact this
+    exact ⟨e3, e2, e4, fin _ _ _ _ hcore e2⟩
+
 end DS.Ebpps
